@@ -1,23 +1,20 @@
-"""History check: a failing engine evaluation followed, in the same process, by a valid one."""
+"""History check: a failing engine evaluation followed, in the same process, by a valid one
+(both over a small table, i.e. through the engine's per-thread evaluation path)."""
 import json, sys, warnings
 warnings.filterwarnings('ignore')
-from biogeme.expressions import Numeric, log
+import pandas as pd
+from biogeme.database import Database
+from biogeme.expressions import Numeric, Variable, Elem
+db = Database('t', pd.DataFrame({'x': [1.0, 2.0]}))
 out = {}
 try:
-    log(Numeric(-1) * Numeric(1)).get_value_c(prepare_ids=True)
-    out['first'] = 'no error'
-except Exception as e:  # noqa
-    out['first'] = f'{type(e).__name__}: {str(e)[:120]}'
-# the engine returns nan/ -inf for log of a negative number on some paths; force a real failure:
-from biogeme.expressions import Elem
-try:
-    Elem({1: Numeric(1)}, Numeric(7)).get_value_c(prepare_ids=True)
+    Elem({1: Variable('x')}, Numeric(7)).get_value_c(database=db, prepare_ids=True)
     out['second'] = 'no error'
 except Exception as e:  # noqa
     out['second'] = f'{type(e).__name__}: {str(e)[:120]}'
 try:
-    v = (Numeric(1) + Numeric(2)).get_value_c(prepare_ids=True)
-    out['after'] = float(v)
+    v = (Variable('x') + Numeric(2)).get_value_c(database=db, prepare_ids=True)
+    out['after'] = [float(z) for z in v]
 except Exception as e:  # noqa
     out['after_exc'] = f'{type(e).__name__}: {str(e)[:200]}'
 print('@@' + json.dumps(out))
